@@ -22,7 +22,7 @@ func allRanges(lo, size int64) []segu.Query {
 	var qs []segu.Query
 	for a := lo; a < lo+size; a++ {
 		for b := a + 1; b <= lo+size; b++ {
-			qs = append(qs, segu.Query{St: segu.SlotUnix(a), Et: segu.SlotUnix(b)})
+			qs = append(qs, segu.Query{St: segu.SlotUnix(a), Et: segu.SlotUnix(b), Zs: int(a+2*b) % 3, Ze: int(2*a+b) % 3})
 		}
 	}
 	return qs
@@ -69,8 +69,14 @@ func gen(r *rand.Rand, idx int, tier string) Input {
 	// ranges hugging the writes
 	add := func(a, b int64) {
 		if a < b {
-			in.Queries = append(in.Queries, segu.Query{St: segu.SlotUnix(a), Et: segu.SlotUnix(b)})
+			in.Queries = append(in.Queries, segu.Query{St: segu.SlotUnix(a), Et: segu.SlotUnix(b), Zs: segu.RandZone(r), Ze: segu.RandZone(r)})
 		}
+	}
+	// requests exactly one bucket wide (10 and 100 slots) on the grid, where a match decides
+	for _, g := range []int64{1, 10, 100} {
+		x := w.Lo + r.Int63n(size)
+		x -= ((x % g) + g) % g
+		add(x, x+g)
 	}
 	add(w.Lo, w.Lo+size)
 	add(w.Lo-int64(r.Intn(30)), w.Lo+size+int64(r.Intn(30)))
@@ -116,19 +122,19 @@ func genTiled(r *rand.Rand, w segu.Window) Input {
 		if x+span > lo+size {
 			span = lo + size - x
 		}
-		ws = append(ws, segu.Write{St: segu.SlotUnix(x), Et: segu.SlotUnix(x + span), Samples: uint64(span) * uint64(lib.Range(r, 1, 20))})
+		ws = append(ws, segu.Write{St: segu.SlotUnix(x), Et: segu.SlotUnix(x + span), Samples: uint64(span) * uint64(lib.Range(r, 1, 20)), Zs: segu.RandZone(r), Ze: segu.RandZone(r)})
 		x += span
 	}
 	for i := lib.Range(r, 0, 4); i > 0; i-- { // a few extra overlapping short writes
 		span := int64(lib.Range(r, 1, 9))
 		x := lo + r.Int63n(size-span+1)
-		ws = append(ws, segu.Write{St: segu.SlotUnix(x), Et: segu.SlotUnix(x + span), Samples: uint64(lib.Range(r, 1, 100))})
+		ws = append(ws, segu.Write{St: segu.SlotUnix(x), Et: segu.SlotUnix(x + span), Samples: uint64(lib.Range(r, 1, 100)), Zs: segu.RandZone(r), Ze: segu.RandZone(r)})
 	}
 	r.Shuffle(len(ws), func(i, j int) { ws[i], ws[j] = ws[j], ws[i] })
 	in.Writes = ws
 	add := func(a, b int64) {
 		if a < b {
-			in.Queries = append(in.Queries, segu.Query{St: segu.SlotUnix(a), Et: segu.SlotUnix(b)})
+			in.Queries = append(in.Queries, segu.Query{St: segu.SlotUnix(a), Et: segu.SlotUnix(b), Zs: segu.RandZone(r), Ze: segu.RandZone(r)})
 		}
 	}
 	add(lo, lo+size)
@@ -157,7 +163,7 @@ func enum(tier string) []Input {
 		var ws []segu.Write
 		for span := int64(1); span <= maxSpan && span <= size; span++ {
 			for a := lo; a+span <= lo+size; a++ {
-				ws = append(ws, segu.Write{St: segu.SlotUnix(a), Et: segu.SlotUnix(a + span), Samples: uint64(span) * 3})
+				ws = append(ws, segu.Write{St: segu.SlotUnix(a), Et: segu.SlotUnix(a + span), Samples: uint64(span) * 3, Zs: int(a+span) % 3, Ze: int(2*a+span) % 3})
 			}
 		}
 		return ws
@@ -216,7 +222,7 @@ func enum(tier string) []Input {
 				var qs []segu.Query
 				for a := 0; a < len(u); a++ {
 					for b := a + 1; b < len(u); b++ {
-						qs = append(qs, segu.Query{St: segu.SlotUnix(u[a]), Et: segu.SlotUnix(u[b])})
+						qs = append(qs, segu.Query{St: segu.SlotUnix(u[a]), Et: segu.SlotUnix(u[b]), Zs: (a + b) % 3, Ze: (a + 2*b) % 3})
 					}
 				}
 				out = append(out, Input{Writes: []segu.Write{w1, w2}, Queries: qs})
@@ -242,7 +248,7 @@ func run(in Input) lib.Result {
 	maxSpan, crossings := int64(0), 0
 	spanClass := map[string]int{}
 	for i, w := range in.Writes {
-		nst, net := segment.VerifNormalize(timeU(w.St), timeU(w.Et))
+		nst, net := segment.VerifNormalize(segu.T(w.St, w.Zs), segu.T(w.Et, w.Ze))
 		cbs := segu.Put(s, w)
 		ws[i] = "(OW " + lib.Z(w.St) + " " + lib.Z(w.Et) + " " + lib.N(w.Samples) + " " + lib.Z(nst.Unix()) + " " + lib.Z(net.Unix()) + " " + segu.CoqPutCBs(cbs) + ")"
 		a, b := segu.UnixSlot(nst.Unix()), segu.UnixSlot(net.Unix())
@@ -288,7 +294,7 @@ func run(in Input) lib.Result {
 		Feat: map[string]interface{}{"writes": len(in.Writes), "max_span": maxSpan, "span_classes": spanClass,
 			"boundary_crossings": crossings, "max_cover": maxCover, "queries": len(in.Queries),
 			"nodes": nodes, "levels": levels, "present": present, "range_cuts_present": cuts,
-			"all_spans_short": maxSpan < 10},
+			"all_spans_short": maxSpan < 10, "zones_mixed": zonesMixed(in)},
 		Obs: map[string]interface{}{"nodes": nodes, "levels": levels, "max_cover": maxCover},
 	}
 }
@@ -318,4 +324,15 @@ func cutsPresent(n *segment.VerifNode, q segu.Query) bool {
 
 func main() {
 	lib.Main(lib.Harness[Input]{Prop: "C03", Quick: 500, Thorough: 3000, Gen: gen, Enum: enum, Run: run})
+}
+
+func zonesMixed(in Input) bool {
+	seen := map[int]bool{}
+	for _, w := range in.Writes {
+		seen[w.Zs%3], seen[w.Ze%3] = true, true
+	}
+	for _, q := range in.Queries {
+		seen[q.Zs%3], seen[q.Ze%3] = true, true
+	}
+	return len(seen) > 1
 }
